@@ -172,6 +172,16 @@ func TestExt15FailsClosed(t *testing.T) {
 			t.Errorf("%s without T15: expected a refusal, got %v", fn, err)
 		}
 	}
+	// the shape gate: another number of loops, an unknown table
+	if _, err := Translate(".", TransSpec{Dir: "internal/sample", Funcs: []string{"Fill"}, T15: T15Spec{OutParams: true, Loops: map[string]int{"Fill": 2}}}); err == nil || !strings.Contains(err.Error(), "has 1 loops") {
+		t.Errorf("loop gate: expected a refusal, got %v", err)
+	}
+	if _, err := Translate(".", TransSpec{Dir: "internal/sample", Funcs: []string{"HexTo"}, T15: T15Spec{OutParams: true, Consts: []string{}}}); err == nil || !strings.Contains(err.Error(), "hexDigits") {
+		t.Errorf("table gate: expected a refusal, got %v", err)
+	}
+	if _, err := Translate(".", TransSpec{Dir: "internal/sample", Funcs: []string{"HexTo", "Fill"}, T15: T15Spec{OutParams: true, Consts: []string{"hexDigits"}, Loops: map[string]int{"Fill": 1, "HexTo": 1}}}); err != nil {
+		t.Errorf("shape gate on the expected shape: %v", err)
+	}
 	// invalid kind tables
 	for _, ks := range [][]ErrKind{{{Name: "A", Code: 0, Substr: "a"}}, {{Name: "A", Code: 16, Substr: "a"}}, {{Name: "A", Code: 1, Substr: "a"}, {Name: "B", Code: 1, Substr: "b"}}, {{Name: "A", Code: 1}}} {
 		if _, err := Translate(".", TransSpec{Dir: "internal/sample", Funcs: []string{"Lens"}, T15: T15Spec{ErrKinds: ks, StdHexLen: true}}); err == nil {
